@@ -55,6 +55,17 @@ def run_one(m, worker):
         if err:
             return {'id': m['id'], 'status': 'skipped', 'detail': err}
         tdirs = {c: os.path.join(VERIF, '.target', 'M%d-%s' % (worker, c)) for c in ('D', 'W', 'A', 'X')}
+        if m.get('benign'):
+            # behaviour-preserving variant: every listed property's check must stay silent
+            alarms = []
+            for pid in m['props']:
+                try:
+                    ctx, violations, known = runner.run_property(pid, 'quick', repo=root, emit=False, target_dirs=tdirs)
+                except extract.ExtractError as e:
+                    return {'id': m['id'], 'status': 'builderror', 'detail': str(e)[-600:]}
+                alarms += ['%s: %s' % (o['id'], o['detail'][:160]) for o in violations]
+            return {'id': m['id'], 'status': 'falsealarm' if alarms else 'silent', 'reported': alarms[:12],
+                    'props': m['props'], 'wall_s': round(time.time() - t0, 1)}
         try:
             ctx, violations, known = runner.run_property(m['property'], m.get('tier', 'quick'), repo=root, emit=False,
                                                           target_dirs=tdirs, configs=m.get('configs'))
@@ -75,17 +86,37 @@ def run_one(m, worker):
             shutil.rmtree(d, ignore_errors=True)
 
 
+_WID = None
+
+
+def _init(counter):
+    # one target directory per worker PROCESS (two jobs of one process never overlap)
+    global _WID
+    with counter.get_lock():
+        _WID = counter.value
+        counter.value += 1
+
+
 def _worker(args):
     m, w = args
     try:
-        return run_one(m, w)
+        return run_one(m, _WID if _WID is not None else w)
     except Exception as e:
         import traceback
         return {'id': m['id'], 'status': 'error', 'detail': '%s %s' % (e, traceback.format_exc()[-800:])}
 
 
-def run_all(prop=None, only=None, jobs=4, own_only=False):
-    muts = json.load(open(MUT))['mutants']
+BEN = os.path.join(VERIF, 'selftest', 'benign.json')
+
+
+def run_all(prop=None, only=None, jobs=4, own_only=False, benign=False):
+    if benign:
+        muts = json.load(open(BEN))['benign']
+        if prop:
+            muts = [dict(m, props=[prop]) for m in muts if prop in m['props']]
+            prop = None
+    else:
+        muts = json.load(open(MUT))['mutants']
     if prop and own_only:
         muts = [m for m in muts if m['property'] == prop]
     elif prop:
@@ -94,7 +125,9 @@ def run_all(prop=None, only=None, jobs=4, own_only=False):
         muts = [m for m in muts if m['id'] in only]
     res = []
     # static worker assignment keeps one target dir per process
-    with cf.ProcessPoolExecutor(max_workers=jobs) as ex:
+    import multiprocessing as mp
+    counter = mp.Value('i', 0)
+    with cf.ProcessPoolExecutor(max_workers=jobs, initializer=_init, initargs=(counter,)) as ex:
         futs = []
         for i, m in enumerate(muts):
             futs.append(ex.submit(_worker, (m, i % jobs)))
@@ -109,16 +142,17 @@ def main():
     ap.add_argument('--only', nargs='*')
     ap.add_argument('--jobs', type=int, default=4)
     ap.add_argument('--json')
+    ap.add_argument('--benign', action='store_true')
     a = ap.parse_args()
-    res = run_all(a.property, a.only, a.jobs)
+    res = run_all(a.property, a.only, a.jobs, benign=a.benign)
     for r in res:
         print(r['status'].upper().ljust(10), r['id'], r.get('reported', r.get('detail', ''))
-              if r['status'] != 'detected' else '')
-    n = {s: sum(1 for r in res if r['status'] == s) for s in ('detected', 'missed', 'skipped', 'builderror', 'error')}
+              if r['status'] not in ('detected', 'silent') else '')
+    n = {s: sum(1 for r in res if r['status'] == s) for s in ('detected', 'missed', 'silent', 'falsealarm', 'skipped', 'builderror', 'error')}
     print(n)
     if a.json:
         json.dump(res, open(a.json, 'w'), indent=1)
-    return 1 if n['missed'] or n['error'] or n['builderror'] else 0
+    return 1 if n['missed'] or n['error'] or n['builderror'] or n['falsealarm'] else 0
 
 
 if __name__ == '__main__':
